@@ -84,8 +84,11 @@ Handle(e, c) ==
     CASE e.ev = "SetContent" -> LET b1 == CB!ReqSetContent(cb, e.x, e.y, e.cp, e.wc, e.comb, e.st)
                                     ch == Changed(cb, b1)
                                     pa == {i + 1 : i \in {j \in ch : j % cb.w # 0 /\ (cb.cells[j].wc = 2 \/ b1.cells[j].wc = 2)}}
-                                IN <<b1, [s EXCEPT !.chg = @ \cup ch \cup pa], {}>>
-      [] e.ev = "Fill" -> LET b1 == CB!ReqFill(cb, e.cp, e.wc, e.st) IN <<b1, [s EXCEPT !.chg = @ \cup Changed(cb, b1)], {}>>
+                                    \* a draw stores ' ' in a cell that held NUL, so writing NUL again changes the cell
+                                    nul == IF e.cp = 0 /\ e.x >= 0 /\ e.y >= 0 /\ e.x < cb.w /\ e.y < cb.h THEN {CB!Idx(cb, e.x, e.y)} ELSE {}
+                                IN <<b1, [s EXCEPT !.chg = @ \cup ch \cup pa \cup nul], {}>>
+      [] e.ev = "Fill" -> LET b1 == CB!ReqFill(cb, e.cp, e.wc, e.st) IN
+                          <<b1, [s EXCEPT !.chg = @ \cup Changed(cb, b1) \cup (IF e.cp = 0 THEN 1..Len(cb.cells) ELSE {})], {}>>
       [] e.ev = "SetStyle" -> <<cb, [s EXCEPT !.def = e.st, !.defs = @ \cup {e.st}], {}>>
       [] e.ev = "SetSize" -> <<CB!ReqResize(cb, e.w, e.h), [s EXCEPT !.free = TRUE], {}>>
       [] e.ev \in {"Show", "Sync"} -> <<cb, [s EXCEPT !.drawing = TRUE, !.drawn = {}, !.sync = e.ev = "Sync"], {}>>
